@@ -1,9 +1,14 @@
 // C08: handles never dangle or alias (engine H, in-process BFS over op histories on the REAL classes).
-//   harness cabinet <depth> <k>/<n>        tbox::cabinet::Cabinet against a boring per-handle status table (partition k of n)
-//   harness pool    <depth> <keep|max>     tbox::ObjectPool<Probe> (probe counts ctor/dtor, stamps a live flag)
-//   harness fd      <depth> <cf|sys>[:V:D] tbox::util::Fd, V (3) handle variables on D (2) fake descriptors (1000, 1001, ..);
-//                                          cf = injected CloseFunc, sys = no CloseFunc, ::close interposed below
-// Every history is replayed on fresh real objects; after EVERY op the oracle compares with the model.
+//   harness cabinet <depth> <k>/<n> [cfg]         tbox::cabinet::Cabinet against a boring per-handle status table (partition k of n);
+//                                                 cfg = plain | wrap (id counter starts two below its maximum) | reserve<N> (reserve(N) first) |
+//                                                 basic (no object-less entries in the alphabet)
+//   harness pool    <depth> <keep|max> [probe]    tbox::ObjectPool<T>, T = probe16 | small1 | odd17 | wide40 (each counts ctor/dtor, stamps every byte
+//                                                 it owns; constructor / destructor can re-enter the pool)
+//   harness fd      <depth> <cf|sys>[:V:D]        tbox::util::Fd, V (3) handle variables on D (2) descriptor numbers (0, 1000, 1001) plus Fd(-1),
+//                                                 Fd::Open of a missing file and of /dev/null; cf = injected CloseFunc, sys = no CloseFunc;
+//                                                 ::close interposed below, every close is recorded with the channel it came through
+// Every history is replayed on fresh real objects and judged against the model; the search extends explored histories by one op, so every
+// prefix of a history has been judged as a history of its own.
 #include "hist/hist.h"
 #include <tbox/base/cabinet.hpp>
 #include <tbox/base/object_pool.hpp>
@@ -12,6 +17,9 @@
 #include <limits>
 #include <map>
 #include <set>
+#include <unordered_set>
+#include <memory>
+#include <fcntl.h>
 #include <sys/syscall.h>
 
 struct Op { int k, a, b; };
@@ -25,25 +33,74 @@ static void emit_outcomes(const std::string &name) {
 }
 
 // =====================================================================================================
-// ::close seam. Fake descriptors (>= 1000) never reach the kernel; everything else is forwarded.
-static std::vector<int> g_close_calls;      // descriptors for which a close was requested during the current op
+// ::close seam. While an Fd operation of the fd lane runs (g_fd_op) EVERY ::close is recorded with its channel; only the one kernel
+// descriptor that lane has opened itself (g_real_fd) is then passed on, so descriptor 0 can be handed to Fd without the process
+// losing its stdin. Outside such an operation fake descriptors (>= 1000) are swallowed and everything else is forwarded.
+enum { CH_SYS = 0, CH_FUNC = 1 };           // how a close request arrived: the interposed ::close / the injected CloseFunc
+struct CloseCall { int chan; int fd; };
+static std::vector<CloseCall> g_close_calls;   // close requests during the current op, in order
+static bool g_fd_op = false; static int g_real_fd = -1;
 extern "C" int close(int fd) {
-  if (fd >= 1000) { g_close_calls.push_back(fd); return 0; }
+  if (g_fd_op) {
+    g_close_calls.push_back(CloseCall{CH_SYS, fd});
+    if (fd >= 0 && fd == g_real_fd) { g_real_fd = -1; return (int)syscall(SYS_close, fd); }
+    return 0; }
+  if (fd >= 1000) return 0;
   return (int)syscall(SYS_close, fd);
 }
 
 // =====================================================================================================
 namespace cab {
 using tbox::cabinet::Cabinet; using tbox::cabinet::Token;
-enum { ALLOC, FREE, UPDATE, CLEAR, FE_NONE, FE_ALL, FE_EVEN, FE_ODD, FE_NEXT, FE_PREV, FREE_NULL, UPDATE_NULL, NK };
-static const char *kN[] = {"alloc", "free", "update", "clear", "foreach", "foreachRmAll", "foreachRmEven", "foreachRmOdd", "foreachRmNext", "foreachRmPrev", "freeNull", "updateNull"};
+enum { ALLOC, FREE, UPDATE, CLEAR, FE_NONE, FE_ALL, FE_EVEN, FE_ODD, FE_NEXT, FE_PREV, FREE_NULL, UPDATE_NULL, ALLOC_EMPTY, UPDATE_EMPTY, RESERVE, NK };
+static const char *kN[] = {"alloc", "free", "update", "clear", "foreach", "foreachRmAll", "foreachRmEven", "foreachRmOdd", "foreachRmNext", "foreachRmPrev", "freeNull", "updateNull",
+                           "allocEmpty", "updateToEmpty", "reserve"};
 struct Obj { int handle; int serial; };
 enum { LIVE = 0, FREED = 1, CLEARED = 2 };
-struct H { Token tok; int st; Obj *obj; bool clr; };   // one entry per token EVER issued; never erased. clr: a clear() ran after it was freed
+// one entry per token EVER issued; never erased. obj == nullptr while LIVE: the entry holds no object yet (alloc() / update(t, nullptr)).
+// clr: a clear() ran after it was freed
+struct H { Token tok; int st; Obj *obj; bool clr; };
+struct Cfg { size_t reserve_n; bool wrap; bool basic; };   // reserve(n) before the first op; wrap: the id counter starts two below its maximum;
+                                                            // basic: no entries without object in the alphabet (smaller space, searched deeper)
 
-static std::string run(const std::vector<Op> &h, std::string &viol, size_t reserve_n) {
-  Cabinet<Obj> c; if (reserve_n) c.reserve(reserve_n);
+// Token value semantics (the token is used as std::set / std::map / unordered_map key in-tree): decided on the (id, pos) pairs,
+// never by the token's own operator==. `t` is compared with every token in `all` (itself included) and with the null token.
+static bool token_algebra(const Token &t, const std::vector<H> &all, std::string &viol) {
+  auto same = [](const Token &a, const Token &b) { return a.id() == b.id() && a.pos() == b.pos(); };
+  auto pair = [&](const Token &a, const Token &b) -> const char * {
+    bool eq = same(a, b), lt = a < b, gt = b < a;
+    if ((a == b) != eq || a.equal(b) != eq) return "cabinet-token-equality-differs-from-id-pos-pair";
+    if ((a != b) == eq) return "cabinet-token-inequality-operator-inconsistent";
+    if (a.less(b) != lt) return "cabinet-token-less-differs-from-operator";
+    if ((int)eq + (int)lt + (int)gt != 1) return "cabinet-token-order-not-a-strict-order";      // exactly one of a<b, b<a, a==b
+    if ((a > b) != gt || (a <= b) != (lt || eq) || (a >= b) != (gt || eq)) return "cabinet-token-derived-comparison-inconsistent";
+    if (eq && (a.hash() != b.hash() || std::hash<Token>()(a) != std::hash<Token>()(b))) return "cabinet-token-equal-tokens-hash-differently";
+    return nullptr; };
+  if ((bool)t != !t.isNull()) { viol = "cabinet-token-bool-differs-from-isNull"; return false; }
+  Token cp = t;
+  if (const char *e = pair(t, cp)) { viol = e; return false; }
+  if (std::hash<Token>()(t) != t.hash()) { viol = "cabinet-token-std-hash-differs-from-hash"; return false; }
+  if (const char *e = pair(t, Token())) { viol = e; return false; }
+  if (const char *e = pair(Token(), t)) { viol = e; return false; }
+  for (auto &x : all) { if (const char *e = pair(t, x.tok)) { viol = e; return false; } if (const char *e = pair(x.tok, t)) { viol = e; return false; } }
+  for (auto &x : all) for (auto &y : all) {           // transitivity through the new token, in every position
+    const Token &a = x.tok, &b = y.tok;
+    if ((a < t && t < b && !(a < b)) || (t < a && a < b && !(t < b)) || (a < b && b < t && !(a < t))) { viol = "cabinet-token-order-not-transitive"; return false; } }
+  cp.reset();
+  if (!cp.isNull() || (bool)cp || !same(cp, Token())) { viol = "cabinet-token-reset-does-not-give-the-null-token"; return false; }
+  return true;
+}
+
+static std::string run(const std::vector<Op> &h, std::string &viol, const Cfg &cfg) {
+  Cabinet<Obj> c;
+  if (cfg.wrap) c.last_id_ = std::numeric_limits<tbox::cabinet::Id>::max() - 2;   // ids issued: max-1, max, then the counter wraps
+  if (cfg.reserve_n) c.reserve(cfg.reserve_n);
   std::deque<Obj> arena; std::set<const Obj *> known; std::vector<H> hs; int serial = 0;
+  // The pairwise / container clauses of the oracle and the outcome counters are evaluated after the LAST op of the history only: the
+  // search extends representative histories one op at a time, so every proper prefix has been through them as a history of its own
+  // (a prefix with a violation is never extended). The per-op clauses on return values run at every op.
+  bool last = h.empty();
+#define COUNT(k) do { if (last) g_out[k]++; } while (0)
   auto mk = [&](int handle) { arena.push_back(Obj{handle, ++serial}); known.insert(&arena.back()); return &arena.back(); };
   auto slot_reused = [&](const H &x) { for (auto &y : hs) if (y.st == LIVE && y.tok.pos() == x.tok.pos()) return true; return false; };
   auto stale = [&](size_t i, const char *what) {
@@ -57,47 +114,77 @@ static std::string run(const std::vector<Op> &h, std::string &viol, size_t reser
       H &x = hs[i]; Obj *p = c.at(x.tok); g_lookups++;
       if (x.st == LIVE) {
         if (x.tok.isNull()) { viol = "cabinet-live-token-is-null" + tk(i); return; }
-        if (p == nullptr) { viol = "cabinet-live-token-resolves-to-nothing" + tk(i); return; }
-        if (p != x.obj) { viol = "cabinet-live-token-resolves-to-wrong-object" + tk(i); return; }
+        if (x.obj == nullptr) { if (p != nullptr) { viol = "cabinet-entry-without-object-resolves-to-an-object" + tk(i); return; } }
+        else if (p == nullptr) { viol = "cabinet-live-token-resolves-to-nothing" + tk(i); return; }
+        else if (p != x.obj) { viol = "cabinet-live-token-resolves-to-wrong-object" + tk(i); return; }
       } else if (p != nullptr) { viol = stale(i, "stale-token-resolves"); return; }
       if (c[x.tok] != p) { viol = "cabinet-operator-index-differs-from-at" + tk(i); return; }
     }
-    for (size_t i = 0; i < hs.size(); i++) for (size_t j = i + 1; j < hs.size(); j++)
-      if (hs[i].st == LIVE && hs[j].st == LIVE && hs[i].tok == hs[j].tok) { viol = "cabinet-duplicate-live-token" + tk(i) + tk(j); return; }
+    for (size_t i = 0; i < hs.size(); i++) for (size_t j = i + 1; j < hs.size(); j++)      // decided on the (id, pos) pairs
+      if (hs[i].st == LIVE && hs[j].st == LIVE && hs[i].tok.id() == hs[j].tok.id() && hs[i].tok.pos() == hs[j].tok.pos()) { viol = "cabinet-duplicate-live-token" + tk(i) + tk(j); return; }
     if (c.size() != live) { viol = "cabinet-size-mismatch size()=" + std::to_string(c.size()) + " live=" + std::to_string(live); return; }
     if (c.empty() != (live == 0)) { viol = "cabinet-empty-mismatch"; return; }
     if (c.at(Token()) != nullptr) { viol = "cabinet-null-token-resolves"; return; }
+    // the live tokens as keys of ordered / hashed containers (how in-tree holders keep them): none may collapse, stale ones are not found
+    std::set<Token> os; std::unordered_set<Token> us;
+    for (auto &x : hs) if (x.st == LIVE) { os.insert(x.tok); us.insert(x.tok); }
+    if (os.size() != live) { viol = "cabinet-live-tokens-collapse-as-ordered-keys set=" + std::to_string(os.size()) + " live=" + std::to_string(live); return; }
+    if (us.size() != live) { viol = "cabinet-live-tokens-collapse-as-hashed-keys set=" + std::to_string(us.size()) + " live=" + std::to_string(live); return; }
+    for (size_t i = 0; i < hs.size(); i++) {
+      bool want = hs[i].st == LIVE;
+      if ((os.count(hs[i].tok) != 0) != want) { viol = std::string(want ? "cabinet-live-token-not-found-as-ordered-key" : "cabinet-stale-token-found-among-live-ordered-keys") + tk(i); return; }
+      if ((us.count(hs[i].tok) != 0) != want) { viol = std::string(want ? "cabinet-live-token-not-found-as-hashed-key" : "cabinet-stale-token-found-among-live-hashed-keys") + tk(i); return; }
+    }
   };
   auto do_free = [&](size_t i, const char *ctx) {           // free through handle i, oracle on the result
     H &x = hs[i]; Obj *r = c.free(x.tok);
-    if (x.st == LIVE) { g_out[std::string("cabinet:") + ctx + "(live)->object"]++;
+    if (x.st == LIVE) { COUNT(std::string("cabinet:") + ctx + (x.obj ? "(live)->object" : "(live,no-object)->null"));
       if (r != x.obj) { viol = std::string("cabinet-free-of-live-token-returns-") + (r ? "wrong-object" : "nothing") + tk(i); return; }
       x.st = FREED; }
-    else { g_out[std::string("cabinet:") + ctx + (x.st == CLEARED ? "(cleared)->null" : slot_reused(x) ? "(freed,slot-reused)->null" : "(freed)->null")]++;
+    else { COUNT(std::string("cabinet:") + ctx + (x.st == CLEARED ? "(cleared)->null" : slot_reused(x) ? "(freed,slot-reused)->null" : "(freed)->null"));
       if (r != nullptr) { viol = stale(i, "free-of-stale-token-returns-object"); return; } }
   };
+  auto issued = [&](Token t, Obj *ob) {                       // a token just handed out by alloc
+    hs.push_back(H{t, LIVE, ob, false});
+    if (last) token_algebra(t, hs, viol); };
   for (auto &o : h) {
+    last = &o == &h.back();
     switch (o.k) {
-      case ALLOC: { Obj *ob = mk((int)hs.size()); Token t = c.alloc(ob); hs.push_back(H{t, LIVE, ob, false}); g_out["cabinet:alloc"]++; } break;
+      case ALLOC: { Obj *ob = mk((int)hs.size()); Token t = c.alloc(ob); issued(t, ob); COUNT("cabinet:alloc"); } break;
+      case ALLOC_EMPTY: { Token t = c.alloc(); issued(t, nullptr); COUNT("cabinet:alloc()-without-object"); } break;
       case FREE: do_free((size_t)o.a, "free"); break;
-      case UPDATE: { H &x = hs[o.a]; Obj *ob = mk(o.a); bool ok = c.update(x.tok, ob);
-        if (x.st == LIVE) { g_out["cabinet:update(live)->true"]++; if (!ok) { viol = "cabinet-update-of-live-token-fails" + tk(o.a); break; } x.obj = ob; }
-        else { g_out[x.st == CLEARED ? "cabinet:update(cleared)->false" : slot_reused(x) ? "cabinet:update(freed,slot-reused)->false" : "cabinet:update(freed)->false"]++;
+      case UPDATE: case UPDATE_EMPTY: { H &x = hs[o.a]; Obj *ob = o.k == UPDATE ? mk(o.a) : nullptr; bool ok = c.update(x.tok, ob);
+        const char *nm = o.k == UPDATE ? "cabinet:update" : "cabinet:update-to-no-object";
+        if (x.st == LIVE) { COUNT(std::string(nm) + (x.obj ? "(live)->true" : "(live,no-object)->true")); if (!ok) { viol = "cabinet-update-of-live-token-fails" + tk(o.a); break; } x.obj = ob; }
+        else { COUNT(std::string(nm) + (x.st == CLEARED ? "(cleared)->false" : slot_reused(x) ? "(freed,slot-reused)->false" : "(freed)->false"));
           if (ok) { viol = stale(o.a, "update-of-stale-token-succeeds"); break; } } } break;
-      case CLEAR: c.clear(); for (auto &x : hs) { if (x.st == LIVE) x.st = CLEARED; else if (x.st == FREED) x.clr = true; } g_out["cabinet:clear"]++; break;
+      case CLEAR: c.clear(); for (auto &x : hs) { if (x.st == LIVE) x.st = CLEARED; else if (x.st == FREED) x.clr = true; } COUNT("cabinet:clear"); break;
+      case RESERVE: c.reserve(o.a ? 1 : hs.size() + 2); COUNT(o.a ? "cabinet:reserve(1)" : "cabinet:reserve(beyond-cells-in-use)"); break;   // more than the cells in use / fewer (or as many): nothing observable may change
       case FREE_NULL: if (c.free(Token()) != nullptr) viol = "cabinet-free-of-null-token-returns-object"; break;
       case UPDATE_NULL: { Obj *ob = mk(-1); if (c.update(Token(), ob)) viol = "cabinet-update-of-null-token-succeeds"; } break;
       default: {   // foreach, the callback only removes (DESIGN 1.7)
-        std::set<int> visited; std::set<int> live_at_start; int nvis = 0, prev = -1;
+        // Entries that hold no object are delivered as null pointers (present code) and cannot be told apart, so they are judged by
+        // number: never more null pointers than such entries were live at the start (one more would be a visit of a cell that holds
+        // no entry). Whether foreach delivers them at all is not part of the statement. To pick what to remove, a null visit is taken
+        // to be the lowest-pos such entry not yet accounted for (a wrong guess only changes which entry gets removed).
+        std::set<int> visited; std::set<int> live_at_start; int nvis = 0, prev = -1; size_t null_visits = 0;
         for (size_t i = 0; i < hs.size(); i++) if (hs[i].st == LIVE) live_at_start.insert((int)i);
+        std::set<int> guessed;
         c.foreach([&](Obj *p) {
           if (!viol.empty()) return;
-          if (!known.count(p)) { viol = "cabinet-foreach-passes-unknown-pointer"; return; }
-          int me = p->handle;
-          if (me < 0 || me >= (int)hs.size() || hs[me].st != LIVE || hs[me].obj != p) { viol = "cabinet-foreach-visits-removed-object handle#" + std::to_string(me); return; }
-          if (!visited.insert(me).second) { viol = "cabinet-foreach-visits-object-twice handle#" + std::to_string(me); return; }
+          int me = -1;
+          if (p == nullptr) {
+            null_visits++;
+            for (int i : live_at_start) if (hs[i].obj == nullptr && hs[i].st == LIVE && !guessed.count(i) && (me < 0 || hs[i].tok.pos() < hs[me].tok.pos())) me = i;
+            if (me >= 0) guessed.insert(me);
+          } else {
+            if (!known.count(p)) { viol = "cabinet-foreach-passes-unknown-pointer"; return; }
+            me = p->handle;
+            if (me < 0 || me >= (int)hs.size() || hs[me].st != LIVE || hs[me].obj != p) { viol = "cabinet-foreach-visits-removed-object handle#" + std::to_string(me); return; }
+            if (!visited.insert(me).second) { viol = "cabinet-foreach-visits-object-twice handle#" + std::to_string(me); return; }
+          }
           int idx = nvis++;
-          switch (o.k) {
+          if (me >= 0) switch (o.k) {
             case FE_ALL: do_free(me, "foreach-remove"); break;
             case FE_EVEN: if (idx % 2 == 0) do_free(me, "foreach-remove"); break;
             case FE_ODD: if (idx % 2 == 1) do_free(me, "foreach-remove"); break;
@@ -109,20 +196,29 @@ static std::string run(const std::vector<Op> &h, std::string &viol, size_t reser
           }
           prev = me; });
         if (!viol.empty()) break;
-        for (int i : live_at_start) if (hs[i].st == LIVE && !visited.count(i)) { viol = "cabinet-foreach-skips-live-object handle#" + std::to_string(i); break; }
-        g_out[std::string("cabinet:") + kN[o.k]]++;
+        size_t empties_at_start = 0;
+        for (int i : live_at_start) {
+          if (hs[i].obj == nullptr) { empties_at_start++; continue; }
+          if (hs[i].st == LIVE && !visited.count(i)) { viol = "cabinet-foreach-skips-live-object handle#" + std::to_string(i); break; } }
+        if (!viol.empty()) break;
+        if (null_visits > empties_at_start) { viol = "cabinet-foreach-delivers-more-null-pointers-than-entries-without-object got=" + std::to_string(null_visits) + " entries=" + std::to_string(empties_at_start); break; }
+        if (null_visits) COUNT("cabinet:foreach-delivers-entry-without-object");
+        COUNT(std::string("cabinet:") + kN[o.k]);
       } break;
     }
     if (!viol.empty()) break;
-    check(); if (!viol.empty()) break;
+    if (last) check();
+    if (!viol.empty()) break;
   }
+  if (h.empty()) check();
   // canonical state: complete implementation state + every token held by the harness with its model status
+  // (E = live without an object: no control flow of the present code reads obj_ptr, but the oracle's expectations differ)
   std::string s; char b[96];
   snprintf(b, sizeof b, "L%zu F%zd N%zu [", c.last_id_, (ssize_t)c.first_free_, c.count_); s += b;
   for (auto &cell : c.cells_) { if (cell.id) snprintf(b, sizeof b, "%zu ", cell.id); else snprintf(b, sizeof b, "f%zd ", (ssize_t)cell.next_free); s += b; }
   s += "] T{";
   std::vector<std::string> ts;
-  for (auto &x : hs) { snprintf(b, sizeof b, "%zu@%zu%c", x.tok.id(), x.tok.pos(), "LFC"[x.st]); ts.push_back(b); }
+  for (auto &x : hs) { snprintf(b, sizeof b, "%zu@%zu%c", x.tok.id(), x.tok.pos(), x.st == LIVE && !x.obj ? 'E' : "LFC"[x.st]); ts.push_back(b); }
   std::sort(ts.begin(), ts.end());
   for (auto &t : ts) { s += t; s += ' '; }
   s += "}";
@@ -134,93 +230,141 @@ static std::string run(const std::vector<Op> &h, std::string &viol, size_t reser
 // partitions is the whole space; states at depth <= PART_DEPTH, and states reachable from two partitions, are counted
 // once per partition that reaches them.
 static const size_t PART_DEPTH = 6;
-static void main_(size_t depth, const char *part_s) {
-  size_t reserve_n = 0; unsigned part = 0, nparts = 1; sscanf(part_s, "%u/%u", &part, &nparts); if (nparts < 1) nparts = 1;
-  hx::Explorer<Op> ex; ex.name = "cabinet/part" + std::to_string(part) + "of" + std::to_string(nparts);
+static void main_(size_t depth, const char *part_s, const char *cfg_s) {
+  Cfg cfg{0, false, false}; unsigned part = 0, nparts = 1; sscanf(part_s, "%u/%u", &part, &nparts); if (nparts < 1) nparts = 1;
+  if (!strcmp(cfg_s, "wrap")) cfg.wrap = true; else if (!strcmp(cfg_s, "basic")) cfg.basic = true; else if (!strncmp(cfg_s, "reserve", 7)) cfg.reserve_n = (size_t)atol(cfg_s + 7);
+  hx::Explorer<Op> ex; ex.name = std::string("cabinet") + (*cfg_s && strcmp(cfg_s, "plain") ? std::string("-") + cfg_s : "") + "/part" + std::to_string(part) + "of" + std::to_string(nparts);
   ex.deadline_s = hx::deadline_from_env(600);
-  ex.show = [](const Op &o) { char b[40]; if (o.k == FREE || o.k == UPDATE) snprintf(b, 40, "%s(#%d)", kN[o.k], o.a); else snprintf(b, 40, "%s", kN[o.k]); return std::string(b); };
+  ex.show = [](const Op &o) { char b[40]; if (o.k == FREE || o.k == UPDATE || o.k == UPDATE_EMPTY) snprintf(b, 40, "%s(#%d)", kN[o.k], o.a); else if (o.k == RESERVE) snprintf(b, 40, o.a ? "reserve(1)" : "reserve(cells+2)"); else snprintf(b, 40, "%s", kN[o.k]); return std::string(b); };
   ex.menu = [&](const std::vector<Op> &h) {
-    int n = 0; for (auto &o : h) if (o.k == ALLOC) n++;
+    int n = 0; for (auto &o : h) if (o.k == ALLOC || o.k == ALLOC_EMPTY) n++;
     std::vector<Op> m;
-    if (nparts > 1 && h.size() == PART_DEPTH) { std::string v; if (std::hash<std::string>()(run(h, v, reserve_n)) % nparts != part) return m; }
-    m.push_back({ALLOC, 0, 0});
+    if (nparts > 1 && h.size() == PART_DEPTH) { std::string v; if (std::hash<std::string>()(run(h, v, cfg)) % nparts != part) return m; }
+    m.push_back({ALLOC, 0, 0}); if (!cfg.basic) m.push_back({ALLOC_EMPTY, 0, 0});
     for (int i = 0; i < n; i++) m.push_back({FREE, i, 0});          // every token ever issued, stale ones included
     m.push_back({CLEAR, 0, 0});
     for (int i = 0; i < n; i++) m.push_back({UPDATE, i, 0});
-    for (int k : {FE_ALL, FE_EVEN, FE_ODD, FE_NEXT, FE_PREV, FE_NONE, FREE_NULL, UPDATE_NULL}) m.push_back({k, 0, 0});
+    if (!cfg.basic) for (int i = 0; i < n; i++) m.push_back({UPDATE_EMPTY, i, 0});
+    for (int k : {FE_ALL, FE_EVEN, FE_ODD, FE_NEXT, FE_PREV, FE_NONE, FREE_NULL, UPDATE_NULL, RESERVE}) m.push_back({k, 0, 0});
+    m.push_back({RESERVE, 1, 0});
     return m; };
-  ex.run = [&](const std::vector<Op> &h, std::string &v) { return run(h, v, reserve_n); };
+  ex.run = [&](const std::vector<Op> &h, std::string &v) { return run(h, v, cfg); };
   ex.explore(depth);
   printf("@STAT lookups=%ld\n", g_lookups);
   emit_outcomes(ex.name);
 }
+#undef COUNT
 }  // namespace cab
 
 // =====================================================================================================
 namespace pool {
 static long g_ctor = 0, g_dtor = 0;
-static std::set<const void *> g_inuse;      // storage of objects the harness has not freed yet
+static std::set<const void *> g_inuse;      // storage of objects the harness has not freed yet (plus the one under construction)
 static std::string *g_viol = nullptr;
+static void flag(const char *s) { if (g_viol && g_viol->empty()) *g_viol = s; }
+// Re-entrancy hooks: what the constructor / destructor of the NEXT probe object does before it returns (run once, then cleared).
+//   constructor hook: the object allocates a child from the same pool (a node that builds its child). While the outer constructor
+//                     runs its storage is in use, so the nested alloc() must not hand it out again.
+//   destructor hook:  the object frees another object of the same pool (a node that destroys its child).
+static std::function<void()> g_in_ctor, g_in_dtor;
+static int g_arg0 = 0;                      // what the zero-argument constructor stamps (alloc() without arguments)
+static void on_ctor(const void *self) { g_ctor++;
+  if (g_inuse.count(self)) flag("pool-constructs-in-storage-still-in-use");
+  if (g_in_ctor) { std::function<void()> f; f.swap(g_in_ctor); g_inuse.insert(self); f(); } }
+static void on_dtor(const void *self, bool alive) { g_dtor++; (void)self;
+  if (!alive) flag("pool-destructs-object-that-is-not-alive");
+  if (g_in_dtor) { std::function<void()> f; f.swap(g_in_dtor); f(); } }
+// every probe: one-argument and zero-argument constructors; stamps every byte it owns
+#define PROBE_LIFECYCLE(P) \
+  explicit P(int s) { on_ctor(this); stamp(s); } \
+  P() { on_ctor(this); stamp(g_arg0); } \
+  ~P() { on_dtor(this, alive()); wipe(); }
 static const uint64_t MAGIC = 0x5AFEC0DE12345678ull; static const int ALIVE = 0x600DF00D, DEAD = 0x0DEAD0DE;
-struct Probe {
-  uint64_t head; int serial; int live;      // head overlays Block::next of the pool's free list
-  explicit Probe(int s);
-  ~Probe() { g_dtor++;
-    if (live != ALIVE && g_viol && g_viol->empty()) *g_viol = "pool-destructs-object-that-is-not-alive";
-    live = DEAD; head = 0; }
+struct Probe16 {                            // exactly two pointers wide; head overlays Block::next of the pool's free list
+  uint64_t head; int serial; int live;
+  void stamp(int s) { head = MAGIC ^ (uint64_t)s; serial = s; live = ALIVE; }
+  bool ok(int s) const { return live == ALIVE && serial == s && head == (MAGIC ^ (uint64_t)s); }
+  bool alive() const { return live == ALIVE; }
+  void wipe() { live = DEAD; head = 0; }
+  PROBE_LIFECYCLE(Probe16)
 };
-enum { ALLOC, FREE, ALLOC_NEST };
-typedef tbox::ObjectPool<Probe> Pool;
-// ALLOC_NEST: the constructor of the object being allocated allocates another object from the same pool (a node that builds its
-// child). While the outer constructor runs its storage is in use, so the nested alloc() must not hand it out again.
-static Pool *g_nest_pool = nullptr; static Probe *g_nested = nullptr; static int g_nested_serial = 0;
-Probe::Probe(int s) { g_ctor++;
-  if (g_inuse.count(this) && g_viol && g_viol->empty()) *g_viol = "pool-constructs-in-storage-still-in-use";
-  if (g_nest_pool) { Pool *pp = g_nest_pool; g_nest_pool = nullptr; g_inuse.insert(this); g_nested = pp->alloc(g_nested_serial); }
-  head = MAGIC ^ (uint64_t)s; serial = s; live = ALIVE; }
+struct Small {                              // smaller than the free-list link: a block sized for T alone cannot hold Block::next
+  uint8_t v;
+  void stamp(int s) { v = (uint8_t)(0x80 | (s & 0x7f)); }
+  bool ok(int s) const { return v == (uint8_t)(0x80 | (s & 0x7f)); }
+  bool alive() const { return (v & 0x80) != 0; }
+  void wipe() { v = 0x0D; }
+  PROBE_LIFECYCLE(Small)
+};
+struct Odd17 {                              // one byte more than a multiple of the link size, alignment 1: a block one byte short is overrun
+  unsigned char b[17];
+  void stamp(int s) { for (int i = 0; i < 17; i++) b[i] = (unsigned char)(0x80 | ((s + 7 * i) & 0x7f)); }
+  bool ok(int s) const { for (int i = 0; i < 17; i++) if (b[i] != (unsigned char)(0x80 | ((s + 7 * i) & 0x7f))) return false; return true; }
+  bool alive() const { return (b[0] & 0x80) && (b[16] & 0x80); }
+  void wipe() { memset(b, 0x0D, sizeof b); }
+  PROBE_LIFECYCLE(Odd17)
+};
+struct Wide40 {                             // several links wide, 8-aligned
+  uint64_t w[5];
+  void stamp(int s) { for (int i = 0; i < 5; i++) w[i] = MAGIC ^ (uint64_t)(s * 5 + i); }
+  bool ok(int s) const { for (int i = 0; i < 5; i++) if (w[i] != (MAGIC ^ (uint64_t)(s * 5 + i))) return false; return true; }
+  bool alive() const { return (w[4] >> 32) == (MAGIC >> 32); }
+  void wipe() { for (int i = 0; i < 5; i++) w[i] = 0; }
+  PROBE_LIFECYCLE(Wide40)
+};
+enum { ALLOC, FREE, ALLOC_NEST, ALLOC0, FREE_NEST };
 
+template <class P>
 static std::string run(const std::vector<Op> &h, std::string &viol, size_t keep, bool dflt) {
-  g_ctor = g_dtor = 0; g_inuse.clear(); g_viol = &viol;
-  struct L { Probe *p; int serial; int blk; };
-  std::vector<L> live; std::map<const void *, int> blk; int next_blk = 0, serial = 0; long allocs = 0, frees = 0;
+  typedef tbox::ObjectPool<P> Pool;
+  g_ctor = g_dtor = 0; g_inuse.clear(); g_viol = &viol; g_in_ctor = nullptr; g_in_dtor = nullptr;
+  struct L { P *p; int serial; };
+  std::vector<L> live; std::set<const void *> blk; int serial = 0; long allocs = 0, frees = 0;
   std::string canon;
   {
-    Pool *pp = dflt ? new Pool() : new Pool(keep); Pool &P = *pp;
+    Pool *pp = dflt ? new Pool() : new Pool(keep); Pool &pool = *pp;
     auto is_live = [&](const void *q) { for (auto &l : live) if (l.p == q) return true; return false; };
     auto walk = [&](std::vector<const void *> &out) {        // the parked list; bounded (cycle guard); a link is only followed
       out.clear();                                           // out of a block this harness has seen and that is not in use
-      for (auto *b = P.free_header_; b != nullptr && out.size() < 64; b = b->next) {
+      for (auto *b = pool.free_header_; b != nullptr && out.size() < 64; b = b->next) {
         out.push_back(b);
         if (is_live(b)) { if (viol.empty()) viol = "pool-live-object-is-on-free-list"; return; }
         if (!blk.count(b)) { if (viol.empty()) viol = "pool-free-list-has-unknown-block"; return; } } };
     auto check = [&]() {
-      for (auto &l : live) if (l.p->live != ALIVE || l.p->serial != l.serial || l.p->head != (MAGIC ^ (uint64_t)l.serial)) {
-        viol = "pool-live-object-corrupted serial=" + std::to_string(l.serial); return; }
+      for (auto &l : live) if (!l.p->ok(l.serial)) { viol = "pool-live-object-corrupted serial=" + std::to_string(l.serial); return; }
       std::vector<const void *> fl; walk(fl); if (!viol.empty()) return;
-      if (fl.size() != P.free_number_) { viol = "pool-free-list-length-differs-from-free-number"; return; }
+      if (fl.size() != pool.free_number_) { viol = "pool-free-list-length-differs-from-free-number"; return; }
       if (fl.size() > keep) { viol = "pool-parks-more-than-keep-number"; return; }
       std::set<const void *> u(fl.begin(), fl.end());
       if (u.size() != fl.size()) { viol = "pool-free-list-has-duplicate-block"; return; }
       for (auto &l : live) if (u.count(l.p)) { viol = "pool-live-object-is-on-free-list"; return; }
+      for (size_t i = 0; i < live.size(); i++) for (size_t j = i + 1; j < live.size(); j++) if (live[i].p == live[j].p) { viol = "pool-hands-out-storage-still-in-use"; return; }
       if (g_ctor != allocs || g_dtor != frees) { viol = "pool-ctor-dtor-count ctor=" + std::to_string(g_ctor) + " dtor=" + std::to_string(g_dtor) + " allocs=" + std::to_string(allocs) + " frees=" + std::to_string(frees); return; }
     };
-    auto do_free = [&](size_t i, const char *ctx) {
-      L l = live[i]; live.erase(live.begin() + i);
-      long c0 = g_ctor, d0 = g_dtor;
+    // free live[i]; with j >= 0 the destructor of live[i] frees live[j] from the same pool before it returns
+    auto do_free = [&](size_t i, int j, const char *ctx) {
+      L l = live[i], l2 = j >= 0 ? live[(size_t)j] : L{nullptr, 0};
+      if (j >= 0 && (size_t)j > i) live.erase(live.begin() + j);
+      live.erase(live.begin() + i);
+      if (j >= 0 && (size_t)j < i) live.erase(live.begin() + j);
+      long c0 = g_ctor, d0 = g_dtor, want = j >= 0 ? 2 : 1;
+      if (j >= 0) g_in_dtor = [&]() { g_inuse.erase(l2.p); pool.free(l2.p); };
       g_inuse.erase(l.p);                   // from here on the storage may be handed out again
-      P.free(l.p); frees++;
-      if (g_dtor != d0 + 1) { if (viol.empty()) viol = std::string("pool-free-runs-") + (g_dtor == d0 ? "no" : "several") + "-destructors" + ctx; return; }
+      pool.free(l.p); frees += want; g_in_dtor = nullptr;
+      if (g_dtor != d0 + want) { if (viol.empty()) viol = std::string("pool-free-runs-") + (g_dtor == d0 ? "no" : g_dtor < d0 + want ? "too-few" : "several") + "-destructors" + ctx; return; }
       if (g_ctor != c0) { if (viol.empty()) viol = std::string("pool-free-runs-constructor") + ctx; return; }
       std::vector<const void *> fl; walk(fl); if (!viol.empty()) return;
-      bool parked = std::find(fl.begin(), fl.end(), (const void *)l.p) != fl.end();
-      g_out[parked ? "pool:free->parked" : "pool:free->released"]++;
-      if (!parked) blk.erase(l.p);          // really given back to malloc; the address may come back as a new block
+      for (const L *x : {&l, &l2}) if (x->p) {
+        bool parked = std::find(fl.begin(), fl.end(), (const void *)x->p) != fl.end();
+        g_out[std::string(j >= 0 ? "pool:free-nested" : "pool:free") + (parked ? "->parked" : "->released")]++;
+        if (!parked) blk.erase(x->p); }      // really given back to malloc; the address may come back as a new block
     };
     for (auto &o : h) {
       if (o.k == ALLOC_NEST) {
         long c0 = g_ctor, d0 = g_dtor;
-        int outer = ++serial, inner = ++serial; g_nested = nullptr; g_nested_serial = inner; g_nest_pool = &P;
-        Probe *p = P.alloc(outer); allocs += 2; g_nest_pool = nullptr; Probe *q = g_nested;
+        int outer = ++serial, inner = ++serial; P *q = nullptr;
+        g_in_ctor = [&]() { q = pool.alloc(inner); };
+        P *p = pool.alloc(outer); allocs += 2; g_in_ctor = nullptr;
         if (!viol.empty()) break;
         if (p == nullptr || q == nullptr) { viol = "pool-alloc-returns-null"; break; }
         if (p == q) { viol = "pool-nested-alloc-hands-out-the-storage-under-construction"; break; }
@@ -228,35 +372,39 @@ static std::string run(const std::vector<Op> &h, std::string &viol, size_t keep,
         if (!viol.empty()) break;
         if (g_ctor != c0 + 2) { viol = "pool-nested-alloc-constructor-count"; break; }
         if (g_dtor != d0) { viol = "pool-alloc-runs-destructor"; break; }
-        if (p->live != ALIVE || p->serial != outer || q->live != ALIVE || q->serial != inner) { viol = "pool-nested-alloc-object-not-constructed-with-arguments"; break; }
+        if (!p->ok(outer) || !q->ok(inner)) { viol = "pool-nested-alloc-object-not-constructed-with-arguments"; break; }
         g_out["pool:alloc-nested"]++;
-        if (!blk.count(q)) blk[q] = next_blk++;     // the inner object is complete first
-        if (!blk.count(p)) blk[p] = next_blk++;
-        live.push_back(L{q, inner, blk[q]}); g_inuse.insert(q); live.push_back(L{p, outer, blk[p]}); g_inuse.insert(p);
-      } else if (o.k == ALLOC) {
-        long c0 = g_ctor, d0 = g_dtor; bool had_parked = P.free_header_ != nullptr;
-        Probe *p = P.alloc(++serial); allocs++;
+        blk.insert(q); blk.insert(p);
+        live.push_back(L{q, inner}); g_inuse.insert(q); live.push_back(L{p, outer}); g_inuse.insert(p);   // the inner object is complete first
+      } else if (o.k == ALLOC || o.k == ALLOC0) {
+        long c0 = g_ctor, d0 = g_dtor; bool had_parked = pool.free_header_ != nullptr;
+        int s = ++serial; P *p = nullptr;
+        if (o.k == ALLOC) p = pool.alloc(s);
+        else { g_arg0 = s; p = pool.alloc(); g_arg0 = -1; }
+        allocs++;
         if (!viol.empty()) break;
         if (p == nullptr) { viol = "pool-alloc-returns-null"; break; }
         for (auto &l : live) if (l.p == p) { viol = "pool-hands-out-storage-still-in-use"; break; }
         if (!viol.empty()) break;
         if (g_ctor != c0 + 1) { viol = std::string("pool-alloc-runs-") + (g_ctor == c0 ? "no" : "several") + "-constructors"; break; }
         if (g_dtor != d0) { viol = "pool-alloc-runs-destructor"; break; }
-        if (p->live != ALIVE || p->serial != serial) { viol = "pool-alloc-object-not-constructed-with-arguments"; break; }
-        if (!blk.count(p)) blk[p] = next_blk++;
-        g_out[had_parked ? "pool:alloc<-parked-block" : "pool:alloc<-malloc"]++;
-        live.push_back(L{p, serial, blk[p]}); g_inuse.insert(p);
-      } else do_free((size_t)o.a, "");
+        if (!p->ok(s)) { viol = "pool-alloc-object-not-constructed-with-arguments"; break; }
+        blk.insert(p);
+        g_out[std::string(o.k == ALLOC ? "pool:alloc" : "pool:alloc()") + (had_parked ? "<-parked-block" : "<-malloc")]++;
+        live.push_back(L{p, s}); g_inuse.insert(p);
+      } else if (o.k == FREE_NEST) do_free((size_t)o.a, o.b, " (the destructor frees another object of the pool)");
+      else do_free((size_t)o.a, -1, "");
       if (!viol.empty()) break;
       check(); if (!viol.empty()) break;
     }
-    // canonical state: parked list in list order and live objects, blocks named by birth order in this history
-    char b[64]; snprintf(b, sizeof b, "K%zd n%zu [", (ssize_t)P.keep_number_, P.free_number_); canon = b;
-    { std::vector<const void *> fl; walk(fl); for (auto *q : fl) { snprintf(b, sizeof b, "b%d ", blk.count(q) ? blk[q] : -1); canon += b; } }
-    canon += "] live{"; for (auto &l : live) { snprintf(b, sizeof b, "b%d ", l.blk); canon += b; } canon += "}";
+    // canonical state. The pool's whole state is keep_number_, free_number_ and the chain of parked blocks; the harness adds the set of
+    // live objects. The pool never looks at a block's address or history, and every oracle clause about the chain (length, duplicates,
+    // live or unknown blocks on it) has just been evaluated, so states are identified up to renaming of blocks: chain length + number
+    // of live objects. (Every live object is offered to free() in every state, whichever history represents it.)
+    { std::vector<const void *> fl; walk(fl); char b[96]; snprintf(b, sizeof b, "K%zd n%zu parked%zu live%zu", (ssize_t)pool.keep_number_, pool.free_number_, fl.size(), live.size()); canon = b; }
     // teardown: give everything back, destroy the pool (ASan sees double free / use after free); pairs must balance
     if (viol.empty()) {
-      while (!live.empty() && viol.empty()) do_free(live.size() - 1, " (end-of-history teardown: free of a remaining live object)");
+      while (!live.empty() && viol.empty()) do_free(live.size() - 1, -1, " (end-of-history teardown: free of a remaining live object)");
       if (viol.empty() && (g_ctor != allocs || g_dtor != allocs)) viol = "pool-ctor-dtor-unbalanced-at-end ctor=" + std::to_string(g_ctor) + " dtor=" + std::to_string(g_dtor) + " allocs=" + std::to_string(allocs);
     }
     if (viol.empty()) {                     // after a violation the pool is leaked on purpose: its list is suspect
@@ -265,21 +413,34 @@ static std::string run(const std::vector<Op> &h, std::string &viol, size_t keep,
       if (g_dtor != d0) viol = "pool-destructor-runs-object-destructors";
     }
   }
-  g_viol = nullptr;
+  g_viol = nullptr; g_in_ctor = nullptr; g_in_dtor = nullptr;
   return canon;
 }
 
-static void main_(size_t depth, const char *keep_s) {
+static void main_(size_t depth, const char *keep_s, const char *probe) {
   bool dflt = !strcmp(keep_s, "max"); size_t keep = dflt ? std::numeric_limits<size_t>::max() : (size_t)atol(keep_s);
-  hx::Explorer<Op> ex; ex.name = std::string("pool/keep") + keep_s;
+  hx::Explorer<Op> ex; ex.name = std::string("pool-") + probe + "/keep" + keep_s;
   ex.deadline_s = hx::deadline_from_env(600);
-  ex.show = [](const Op &o) { char b[32]; if (o.k == ALLOC) snprintf(b, 32, "alloc"); else if (o.k == ALLOC_NEST) snprintf(b, 32, "alloc(ctor-allocs-a-child)"); else snprintf(b, 32, "free(live[%d])", o.a); return std::string(b); };
+  ex.show = [](const Op &o) { char b[64];
+    switch (o.k) {
+      case ALLOC: snprintf(b, 64, "alloc"); break;
+      case ALLOC0: snprintf(b, 64, "alloc(no-arguments)"); break;
+      case ALLOC_NEST: snprintf(b, 64, "alloc(ctor-allocs-a-child)"); break;
+      case FREE_NEST: snprintf(b, 64, "free(live[%d],dtor-frees-live[%d])", o.a, o.b); break;
+      default: snprintf(b, 64, "free(live[%d])", o.a); break; }
+    return std::string(b); };
   ex.menu = [&](const std::vector<Op> &h) {
-    int n = 0; for (auto &o : h) n += o.k == ALLOC ? 1 : o.k == ALLOC_NEST ? 2 : -1;
-    std::vector<Op> m; m.push_back({ALLOC, 0, 0}); m.push_back({ALLOC_NEST, 0, 0});
+    int n = 0; for (auto &o : h) n += o.k == ALLOC_NEST ? 2 : o.k == FREE ? -1 : o.k == FREE_NEST ? -2 : 1;
+    std::vector<Op> m; for (int k : {ALLOC, ALLOC0, ALLOC_NEST}) m.push_back({k, 0, 0});
     for (int i = 0; i < n; i++) m.push_back({FREE, i, 0});          // each live object (index into the live list)
+    for (int i = 0; i < n; i++) for (int j = 0; j < n; j++) if (i != j) m.push_back({FREE_NEST, i, j});
     return m; };
-  ex.run = [&](const std::vector<Op> &h, std::string &v) { return run(h, v, keep, dflt); };
+  std::string pr = probe;
+  if (pr == "probe16") ex.run = [&](const std::vector<Op> &h, std::string &v) { return run<Probe16>(h, v, keep, dflt); };
+  else if (pr == "small1") ex.run = [&](const std::vector<Op> &h, std::string &v) { return run<Small>(h, v, keep, dflt); };
+  else if (pr == "odd17") ex.run = [&](const std::vector<Op> &h, std::string &v) { return run<Odd17>(h, v, keep, dflt); };
+  else if (pr == "wide40") ex.run = [&](const std::vector<Op> &h, std::string &v) { return run<Wide40>(h, v, keep, dflt); };
+  else { printf("@INFO pool: unknown probe %s\n", probe); return; }
   ex.explore(depth);
   emit_outcomes(ex.name);
 }
@@ -288,34 +449,45 @@ static void main_(size_t depth, const char *keep_s) {
 // =====================================================================================================
 namespace fdh {
 using tbox::util::Fd;
-enum { OPEN, DEF, CPC, MVC, CPA, MVA, SELF_CPA, SELF_MVA, SWAP, RESET, CLOSE, DESTROY, NK };
-static const char *kN[] = {"open", "default", "copyctor", "movector", "copyassign", "moveassign", "selfcopyassign", "selfmoveassign", "swap", "reset", "close", "destroy"};
-static const int MAXV = 4, MAXD = 3, BASE = 1000;
+enum { OPEN, DEF, CPC, MVC, CPA, MVA, SELF_CPA, SELF_MVA, SWAP, RESET, CLOSE, DESTROY, OPEN_INVALID, OPEN_FAIL, OPEN_FILE, NK };
+static const char *kN[] = {"open", "default", "copyctor", "movector", "copyassign", "moveassign", "selfcopyassign", "selfmoveassign", "swap", "reset", "close", "destroy",
+                           "openInvalid", "OpenMissingFile", "OpenFile"};
+static const int MAXV = 4, MAXD = 3;
 static int NV = 3, ND = 2;   // handle variables / fake descriptors in use
+// The descriptor numbers handed to Fd(fd[, cf]). 0 is the smallest valid descriptor (the boundary of the `fd >= 0` guards); while
+// an Fd operation runs the ::close seam keeps every number of this table away from the kernel.
+static const int kDesc[MAXD] = {0, 1000, 1001};
+static const int REAL = MAXD;   // pseudo descriptor index of the record made by Fd::Open() on a real file (number chosen by the kernel)
 
 // Boring reference: variables point at shared records; a record's descriptor is closed by an explicit close()
-// or when its last holder lets go, whichever comes first, and never again.
+// or when its last holder lets go, whichever comes first, and never again. A record made from -1 holds no descriptor: born closed.
 struct Model {
-  struct Rec { int desc; int refs; bool closed; };
-  std::vector<Rec> recs; bool exists[MAXV]; int rec[MAXV]; int open_rec[MAXD];
-  std::vector<int> expect;    // close calls the op just applied must produce, in order
-  Model() { for (int i = 0; i < NV; i++) { exists[i] = false; rec[i] = -1; } for (int d = 0; d < ND; d++) open_rec[d] = -1; }
-  void do_close(int r) { Rec &x = recs[r]; if (!x.closed) { x.closed = true; expect.push_back(BASE + x.desc); open_rec[x.desc] = -1; } }
+  struct Rec { int desc; int refs; bool closed; int chan; int num; };
+  std::vector<Rec> recs; bool exists[MAXV]; int rec[MAXV]; int open_rec[MAXD + 1];
+  bool use_cf;
+  std::vector<CloseCall> expect;    // close calls the op just applied must produce, in order
+  explicit Model(bool cf) : use_cf(cf) { for (int i = 0; i < MAXV; i++) { exists[i] = false; rec[i] = -1; } for (int d = 0; d <= MAXD; d++) open_rec[d] = -1; }
+  void do_close(int r) { Rec &x = recs[r]; if (!x.closed) { x.closed = true; expect.push_back(CloseCall{x.chan, x.num}); open_rec[x.desc] = -1; } }
   void release(int r) { if (r < 0) return; if (--recs[r].refs == 0) do_close(r); }
   bool enabled(const Op &o) const {
     switch (o.k) {
       case OPEN: return open_rec[o.b] < 0;                 // a descriptor number is only re-issued after it was closed
+      case OPEN_FILE: return open_rec[REAL] < 0;           // at most one kernel descriptor at a time: the kernel then always issues the same number
+      case OPEN_INVALID: case OPEN_FAIL: return true;
       case DEF: return !exists[o.a];
       case CPC: case MVC: return !exists[o.a] && exists[o.b];
       case CPA: case MVA: return o.a != o.b && exists[o.a] && exists[o.b];
       case SWAP: return exists[o.a] && exists[o.b];
       default: return exists[o.a];
     } }
-  void apply(const Op &o) {
+  void bind(int v, int r) { if (exists[v]) release(rec[v]); exists[v] = true; rec[v] = r; }    // v = <temporary holding record r> (or a new variable)
+  void apply(const Op &o, int real_num = -1) {
     expect.clear(); int v = o.a, w = o.b;
     switch (o.k) {
-      case OPEN: { recs.push_back(Rec{w, 1, false}); int r = (int)recs.size() - 1; open_rec[w] = r;
-        if (exists[v]) release(rec[v]); exists[v] = true; rec[v] = r; } break;
+      case OPEN: { recs.push_back(Rec{w, 1, false, use_cf ? CH_FUNC : CH_SYS, kDesc[w]}); int r = (int)recs.size() - 1; open_rec[w] = r; bind(v, r); } break;
+      case OPEN_FILE: { recs.push_back(Rec{REAL, 1, false, CH_SYS, real_num}); int r = (int)recs.size() - 1; open_rec[REAL] = r; bind(v, r); } break;   // Open() attaches no CloseFunc
+      case OPEN_INVALID: { recs.push_back(Rec{-1, 1, true, use_cf ? CH_FUNC : CH_SYS, -1}); bind(v, (int)recs.size() - 1); } break;
+      case OPEN_FAIL: bind(v, -1); break;                   // Open() of a missing file gives a handle that holds nothing
       case DEF: exists[v] = true; rec[v] = -1; break;
       case CPC: exists[v] = true; rec[v] = rec[w]; if (rec[w] >= 0) recs[rec[w]].refs++; break;
       case MVC: exists[v] = true; rec[v] = rec[w]; rec[w] = -1; break;
@@ -327,46 +499,59 @@ struct Model {
       case CLOSE: if (rec[v] >= 0) do_close(rec[v]); break;
       case DESTROY: release(rec[v]); rec[v] = -1; exists[v] = false; break;
     } }
-  int expected_get(int v) const { return (rec[v] < 0 || recs[rec[v]].closed) ? -1 : BASE + recs[rec[v]].desc; }
+  int expected_get(int v) const { return (rec[v] < 0 || recs[rec[v]].closed) ? -1 : recs[rec[v]].num; }
+  bool is_open(int num) const { for (auto &x : recs) if (!x.closed && x.num == num) return true; return false; }
 };
 
 static std::string show(const Op &o) {
   char b[48]; const char V[] = "ABCD";
   switch (o.k) {
-    case OPEN: snprintf(b, 48, "open(%c,%d)", V[o.a], BASE + o.b); break;
+    case OPEN: snprintf(b, 48, "open(%c,%d)", V[o.a], kDesc[o.b]); break;
     case CPC: case MVC: case CPA: case MVA: case SWAP: snprintf(b, 48, "%s(%c,%c)", kN[o.k], V[o.a], V[o.b]); break;
     default: snprintf(b, 48, "%s(%c)", kN[o.k], V[o.a]); break;
   }
   return b;
 }
 
+// the number the kernel will give to the next descriptor it opens (lowest unused); runs outside any Fd operation, so the seam forwards
+static int next_kernel_fd() { int n = dup(1); if (n >= 0) ::close(n); return n; }
+
 static std::string run(const std::vector<Op> &h, std::string &viol, bool use_cf) {
-  Model m; Fd *var[MAXV] = {nullptr, nullptr, nullptr, nullptr};
-  int opened[MAXD] = {0, 0, 0}, closed_cur[MAXD] = {0, 0, 0};   // harness-side truth per descriptor: generations issued / close calls in the current one
-  Fd::CloseFunc cf = [](int fd) { g_close_calls.push_back(fd); };
-  auto mkfd = [&](int d) { return use_cf ? Fd(BASE + d, cf) : Fd(BASE + d); };
+  Model m(use_cf); Fd *var[MAXV] = {nullptr, nullptr, nullptr, nullptr};
+  std::map<int, int> issued, closed_n;          // harness-side truth per descriptor number: times handed to an Fd / close calls seen
+  Fd::CloseFunc cf = [](int fd) { g_close_calls.push_back(CloseCall{CH_FUNC, fd}); };
+  auto mkfd = [&](int num) { return use_cf ? Fd(num, cf) : Fd(num); };
   auto judge = [&](const Op &o) {                       // recorded close calls of this op against the model
     // classify the first unexpected / missing call with harness-side truth so the signature names the failure
-    std::vector<int> got = g_close_calls, exp = m.expect;
-    for (int fd : got) {
-      int d = fd - BASE;
-      if (d < 0 || d >= ND || !opened[d]) { viol = "fd-close-called-for-descriptor-never-opened fd=" + std::to_string(fd); return; }
-      if (closed_cur[d] >= 1) { viol = "fd-closed-twice fd=" + std::to_string(fd) + " during " + show(o); return; }
-      closed_cur[d]++;
-      auto it = std::find(exp.begin(), exp.end(), fd);
-      if (it == exp.end()) { viol = "fd-closed-while-another-copy-still-expects-it-open fd=" + std::to_string(fd) + " during " + show(o); return; }
+    std::vector<CloseCall> got = g_close_calls, exp = m.expect;
+    for (auto &g : got) {
+      int fd = g.fd;
+      if (!issued.count(fd)) { viol = "fd-close-called-for-descriptor-never-opened fd=" + std::to_string(fd) + (g.chan == CH_SYS ? " through ::close" : " through the CloseFunc") + " during " + show(o); return; }
+      auto it = exp.begin(); while (it != exp.end() && it->fd != fd) ++it;
+      if (it == exp.end()) {
+        if (m.is_open(fd)) viol = "fd-closed-while-another-copy-still-expects-it-open fd=" + std::to_string(fd) + " during " + show(o);
+        else viol = "fd-closed-twice fd=" + std::to_string(fd) + " during " + show(o);
+        return; }
+      if (it->chan != g.chan) { viol = std::string(it->chan == CH_FUNC ? "fd-closed-by-::close-instead-of-its-CloseFunc" : "fd-closed-by-a-CloseFunc-instead-of-::close") + " fd=" + std::to_string(fd) + " during " + show(o); return; }
+      closed_n[fd]++;
       exp.erase(it);
     }
-    if (!exp.empty()) { viol = std::string(o.k == CLOSE ? "fd-explicit-close-does-not-close" : "fd-not-closed-when-last-copy-goes-away") + " fd=" + std::to_string(exp[0]) + " during " + show(o); return; }
-    for (int fd : m.expect) g_out[std::string("fd:") + kN[o.k] + "->closes"]++, (void)fd;
+    if (!exp.empty()) { viol = std::string(o.k == CLOSE ? "fd-explicit-close-does-not-close" : "fd-not-closed-when-last-copy-goes-away") + " fd=" + std::to_string(exp[0].fd) + " during " + show(o); return; }
+    for (auto &e : m.expect) g_out[std::string("fd:") + kN[o.k] + "->closes" + (e.fd == 0 ? "(descriptor 0)" : e.fd < 1000 ? "(kernel descriptor)" : "")]++;
     if (m.expect.empty()) g_out[std::string("fd:") + kN[o.k] + "->no-close"]++;
   };
   for (auto &o : h) {
     if (!m.enabled(o)) { viol = "harness-disabled-op-in-history"; break; }
     g_close_calls.clear();
-    int v = o.a, w = o.b;
+    int v = o.a, w = o.b, real_num = -1;
+    auto put = [&](Fd &&f) { if (var[v]) *var[v] = std::move(f); else var[v] = new Fd(std::move(f)); };
+    if (o.k == OPEN_FILE) real_num = next_kernel_fd();
+    g_fd_op = true;
     switch (o.k) {
-      case OPEN: opened[w]++; closed_cur[w] = 0; if (var[v]) *var[v] = mkfd(w); else var[v] = new Fd(mkfd(w)); break;
+      case OPEN: issued[kDesc[w]]++; put(mkfd(kDesc[w])); break;
+      case OPEN_INVALID: put(mkfd(-1)); break;
+      case OPEN_FAIL: put(Fd::Open("/nonexistent-dir-c08/nothing", O_RDONLY)); break;
+      case OPEN_FILE: issued[real_num]++; g_real_fd = real_num; put(Fd::Open("/dev/null", O_RDONLY)); break;
       case DEF: var[v] = new Fd(); break;
       case CPC: var[v] = new Fd(*var[w]); break;
       case MVC: var[v] = new Fd(std::move(*var[w])); break;
@@ -379,7 +564,8 @@ static std::string run(const std::vector<Op> &h, std::string &viol, bool use_cf)
       case CLOSE: var[v]->close(); break;
       case DESTROY: delete var[v]; var[v] = nullptr; break;
     }
-    m.apply(o);
+    g_fd_op = false;
+    m.apply(o, real_num);
     judge(o); if (!viol.empty()) break;
     for (int i = 0; i < NV && viol.empty(); i++) if (var[i]) {
       int e = m.expected_get(i);
@@ -399,13 +585,15 @@ static std::string run(const std::vector<Op> &h, std::string &viol, bool use_cf)
   s += "|";
   for (auto *f : order) { char b[64]; snprintf(b, sizeof b, " fd%d rc%d cf%d", f->detail_->fd, f->detail_->ref_count, f->detail_->close_func ? 1 : 0); s += b; }
   s += " |";
-  for (int d = 0; d < ND; d++) s += m.open_rec[d] >= 0 ? " open" : opened[d] ? " closed" : " fresh";
+  for (int d = 0; d < ND; d++) s += m.open_rec[d] >= 0 ? " open" : issued.count(kDesc[d]) ? " closed" : " fresh";
+  s += m.open_rec[REAL] >= 0 ? " file-open" : "";
   // teardown: the last copies go away; every descriptor generation must have been closed exactly once by now
   if (viol.empty()) {
     for (int i = 0; i < NV && viol.empty(); i++) if (var[i]) {
-      Op o{DESTROY, i, 0}; g_close_calls.clear(); delete var[i]; var[i] = nullptr; m.apply(o); judge(o); }
-    for (int d = 0; d < ND && viol.empty(); d++) if (opened[d] && closed_cur[d] != 1) viol = "fd-never-closed-after-all-copies-destroyed fd=" + std::to_string(BASE + d);
+      Op o{DESTROY, i, 0}; g_close_calls.clear(); g_fd_op = true; delete var[i]; var[i] = nullptr; g_fd_op = false; m.apply(o); judge(o); }
+    for (auto &kv : issued) if (viol.empty() && closed_n[kv.first] != kv.second) viol = "fd-never-closed-after-all-copies-destroyed fd=" + std::to_string(kv.first);
   } else { for (int i = 0; i < NV; i++) var[i] = nullptr; /* leak on purpose: the state is suspect */ }
+  if (g_real_fd >= 0) { syscall(SYS_close, g_real_fd); g_real_fd = -1; }   // whatever the verdict, the kernel descriptor does not outlive the history
   return s;
 }
 
@@ -417,11 +605,11 @@ static void main_(size_t depth, const char *mode) {
   ex.deadline_s = hx::deadline_from_env(600);
   ex.show = show;
   ex.menu = [&](const std::vector<Op> &h) {
-    Model m; for (auto &o : h) m.apply(o);
+    Model m(use_cf); for (auto &o : h) m.apply(o);
     std::vector<Op> all, out;
     for (int v = 0; v < NV; v++) for (int d = 0; d < ND; d++) all.push_back({OPEN, v, d});
     for (int k : {CPC, MVC, CPA, MVA}) for (int v = 0; v < NV; v++) for (int w = 0; w < NV; w++) if (v != w) all.push_back({k, v, w});
-    for (int k : {CLOSE, RESET, DESTROY, SELF_CPA, SELF_MVA, DEF}) for (int v = 0; v < NV; v++) all.push_back({k, v, 0});
+    for (int k : {CLOSE, RESET, DESTROY, SELF_CPA, SELF_MVA, DEF, OPEN_INVALID, OPEN_FAIL, OPEN_FILE}) for (int v = 0; v < NV; v++) all.push_back({k, v, 0});
     for (int v = 0; v < NV; v++) for (int w = v; w < NV; w++) all.push_back({SWAP, v, w});   // w == v: self swap
     for (auto &o : all) if (m.enabled(o)) out.push_back(o);
     return out; };
@@ -436,8 +624,8 @@ int main(int argc, char **argv) {
   std::string sub = argv[1]; size_t depth = (size_t)atol(argv[2]);
   hx::install_crash_reporter(("C08-" + sub + "-crash").c_str());
   setvbuf(stdout, nullptr, _IOLBF, 0);
-  if (sub == "cabinet") cab::main_(depth, argv[3]);
-  else if (sub == "pool") pool::main_(depth, argv[3]);
+  if (sub == "cabinet") cab::main_(depth, argv[3], argc > 4 ? argv[4] : "plain");
+  else if (sub == "pool") pool::main_(depth, argv[3], argc > 4 ? argv[4] : "probe16");
   else if (sub == "fd") fdh::main_(depth, argv[3]);
   return 0;
 }
